@@ -107,7 +107,7 @@ def run_check(modname, tier, seed, jobs=None):
     done = 0
     ctx = multiprocessing.get_context("fork")
     work = [(modname, tier, sc) for sc in scs]
-    chunks = max(1, min(64, len(work) // (jobs * 8) or 1))
+    chunks = 1  # scenarios differ widely in cost: let the pool balance them one by one
     if jobs == 1:
         _init_worker()
         it = map(_worker, work)
